@@ -1,7 +1,158 @@
-(* C17 placeholder: theorems land with Proofs/ProtoProofs.v *)
-From Coq Require Import ZArith List.
-From V Require Import Result Proto.
+(* C17 -- the loader either rejects a file or returns a coherent IR.
+   Whatever schema-valid message (msg_ok: what the protobuf parser guarantees -- byte strings are bytes, map keys are
+   distinct) the reader is given, it either fails with ValueError / DeserializationError / TypeError, or returns a content
+   that satisfies wf: unique UUIDs in range, every referent a block, every entry point a code block, every edge endpoint
+   a CFG node, every expression operand a symbol, stored bytes within interval sizes, enum numbers known -- and that
+   content can be saved and loaded again unchanged.  A wrong magic, a wrong version byte, or another version field is a
+   ValueError; every file save produces from a self-contained IR is accepted.
+   Totality ("never hangs"): every function of Model/Proto.v is a structural Fixpoint or a non-recursive Definition, so
+   `load f p` reduces to Ok _ or Err _ for all f and p; there is nothing to prove beyond C17_load_dichotomy.
+   EImpossible is the model's marker for "a node of the same class with that UUID is already cached" (the implementation
+   would reuse and move the cached node; that merge is outside this model).
+   Arbitrary BYTES are the protobuf parser's domain: that malformed wire data raises DecodeError (and never reaches
+   _from_protobuf) is covered by the fault enumeration of the harness, not here.
+   Model: Model/Proto.v.  Proofs: Proofs/ProtoReaderBase.v, Proofs/ProtoReader.v, Proofs/ProtoRoundTrip.v, Proofs/ProtoProps.v.
+   Trusted: the protobuf wire codec. *)
+From Coq Require Import String ZArith List.
+From V Require Import Result PyFacts Proto ProtoReaderBase ProtoReader ProtoProps.
+From V Require ProtoRoundTrip.
 Import ListNotations.
-Theorem C17_short_file_rejected : check_header [] = Err EValue.
-Proof. vm_compute. reflexivity. Qed.
-Print Assumptions C17_short_file_rejected.
+Open Scope Z_scope.
+
+(* ---------- accept => coherent ---------- *)
+Theorem C17_accept_coherent : forall p c, msg_ok p = true -> from_proto p = Ok c -> wf c = true.
+Proof. exact accept_coherent. Qed.
+
+Theorem C17_accept_refs_typed : forall p c, msg_ok p = true -> from_proto p = Ok c -> refs_closed c.
+Proof. exact refs_closed_typed. Qed.
+
+Theorem C17_accept_bytes_within_size : forall p c, msg_ok p = true -> from_proto p = Ok c -> forall m s b,
+  In m (cr_modules c) -> In s (cm_sections m) -> In b (cs_bis s) -> Z.of_nat (length (ci_contents b)) <= ci_size b.
+Proof. exact accept_bytes_within_size. Qed.
+
+(* what is accepted can be saved again and read back unchanged *)
+Theorem C17_coherent_can_be_saved_and_reloaded : forall p c, msg_ok p = true -> from_proto p = Ok c ->
+  from_proto (to_proto c) = Ok c.
+Proof. exact coherent_can_be_saved_and_reloaded. Qed.
+
+(* ---------- reject => one of the documented classes ---------- *)
+Theorem C17_reject_only : forall p e,
+  from_proto p = Err e -> e = EValue \/ e = EDeser \/ e = EType \/ e = EImpossible.
+Proof. exact reject_only. Qed.
+
+(* the two outcomes, through the header *)
+Theorem C17_load_dichotomy : forall f p, msg_ok p = true ->
+  (exists c, load f p = Ok c /\ wf c = true /\ refs_closed c /\ from_proto (to_proto c) = Ok c)
+  \/ (exists e, load f p = Err e /\ (e = EValue \/ e = EDeser \/ e = EType \/ e = EImpossible)).
+Proof. exact load_dichotomy. Qed.
+
+(* ---------- rejection classes ---------- *)
+Theorem C17_bad_uuid_len : forall bs, length bs <> 16%nat -> uuid_of_bytes bs = Err EValue.
+Proof. exact bad_uuid_len. Qed.
+
+Theorem C17_bad_enum : forall nm v, enum_ok nm v = false -> check_enum nm v = Err EValue.
+Proof. exact bad_enum. Qed.
+
+Theorem C17_bad_module_enum : forall t m u,
+  uuid_of_bytes (m_uuid m) = Ok u -> fresh t u NMod = Ok tt ->
+  enum_ok "ISA" (m_isa m) = false \/ enum_ok "FileFormat" (m_file_format m) = false
+  \/ enum_ok "ByteOrder" (m_byte_order m) = false ->
+  decode_module t m = Err EValue.
+Proof. exact bad_module_enum. Qed.
+
+Theorem C17_block_without_payload : forall t o, decode_block t {| b_off := o; b_val := PNoBlock |} = Err EType.
+Proof. exact block_without_payload. Qed.
+
+Theorem C17_expr_without_value : forall t k attrs,
+  decode_expr t (k, {| x_val := PNoExpr; x_attrs := attrs |}) = Err EType.
+Proof. exact expr_without_value. Qed.
+
+Theorem C17_bytes_beyond_size : forall t b u,
+  uuid_of_bytes (bi_uuid b) = Ok u -> fresh t u NBI = Ok tt ->
+  bi_size b < Z.of_nat (length (bi_contents b)) -> decode_bi t b = Err EValue.
+Proof. exact bytes_beyond_size. Qed.
+
+Theorem C17_wrong_version : forall p u,
+  uuid_of_bytes (i_uuid p) = Ok u -> i_version p <> py_protobuf_version -> from_proto p = Err EValue.
+Proof. exact wrong_version. Qed.
+
+Theorem C17_dup_other_kind : forall t u k k', tlookup t u = Some k' -> k' <> k -> fresh t u k = Err EDeser.
+Proof. exact dup_other_kind. Qed.
+
+Theorem C17_dangling_reference : forall t bs ok u,
+  uuid_of_bytes bs = Ok u -> tlookup t u = None -> resolve t bs ok = Err EDeser.
+Proof. exact resolve_dangling. Qed.
+
+Theorem C17_illtyped_reference : forall t bs ok u k,
+  uuid_of_bytes bs = Ok u -> tlookup t u = Some k -> ok k = false -> resolve t bs ok = Err EDeser.
+Proof. exact resolve_illtyped. Qed.
+
+(* ---------- header ---------- *)
+Theorem C17_header_gate : forall f rest,
+  check_header f = Ok rest -> firstn 5 f = py_magic /\ nth 7 f 0 = py_protobuf_version /\ rest = skipn 8 f.
+Proof. exact header_gate. Qed.
+
+Theorem C17_header_reject : forall f e, check_header f = Err e -> e = EValue.
+Proof. exact header_reject. Qed.
+
+Theorem C17_load_bad_header : forall f p,
+  firstn 5 f <> py_magic \/ nth 7 f 0 <> py_protobuf_version -> load f p = Err EValue.
+Proof. exact load_bad_header. Qed.
+
+Theorem C17_load_wrong_version_field : forall f p rest u, check_header f = Ok rest -> uuid_of_bytes (i_uuid p) = Ok u ->
+  i_version p <> py_protobuf_version -> load f p = Err EValue.
+Proof. exact load_wrong_version_field. Qed.
+
+Theorem C17_load_accept : forall f p c,
+  load f p = Ok c ->
+  (firstn 5 f = py_magic /\ nth 7 f 0 = py_protobuf_version /\ check_header f = Ok (skipn 8 f))
+  /\ from_proto p = Ok c.
+Proof. exact load_accept. Qed.
+
+Theorem C17_load_reject : forall f p e,
+  load f p = Err e -> e = EValue \/ e = EDeser \/ e = EType \/ e = EImpossible.
+Proof. exact load_reject. Qed.
+
+(* every file produced by save from a self-contained IR is accepted (and gives that IR) *)
+Theorem C17_saved_files_accepted : forall c, wf c = true -> load (fst (save c)) (snd (save c)) = Ok c.
+Proof. exact ProtoRoundTrip.file_roundtrip. Qed.
+
+(* non-vacuity: an accepted foreign message; the empty file, a wrong magic and a wrong version byte; the accepted
+   message with another version field; a referent of the wrong kind *)
+Example C17_example :
+  msg_ok ex_msg = true
+  /\ (exists c, load header ex_msg = Ok c /\ wf c = true)
+  /\ load [] ex_msg = Err EValue
+  /\ load [71; 84; 73; 82; 98; 0; 0; 4] ex_msg = Err EValue
+  /\ load [71; 84; 73; 82; 66; 0; 0; 3] ex_msg = Err EValue
+  /\ load header {| i_uuid := i_uuid ex_msg; i_modules := i_modules ex_msg; i_aux := []; i_version := 3;
+                    i_vertices := []; i_edges := i_edges ex_msg |} = Err EValue
+  /\ load header (ex_retarget (ex_uuid 3)) = Err EDeser.
+Proof.
+  split; [vm_compute; reflexivity|]. split; [|vm_compute; repeat split; reflexivity].
+  eexists. split; [vm_compute; reflexivity|]. vm_compute. reflexivity.
+Qed.
+
+Print Assumptions C17_accept_coherent.
+Print Assumptions C17_accept_refs_typed.
+Print Assumptions C17_accept_bytes_within_size.
+Print Assumptions C17_coherent_can_be_saved_and_reloaded.
+Print Assumptions C17_reject_only.
+Print Assumptions C17_load_dichotomy.
+Print Assumptions C17_bad_uuid_len.
+Print Assumptions C17_bad_enum.
+Print Assumptions C17_bad_module_enum.
+Print Assumptions C17_block_without_payload.
+Print Assumptions C17_expr_without_value.
+Print Assumptions C17_bytes_beyond_size.
+Print Assumptions C17_wrong_version.
+Print Assumptions C17_dup_other_kind.
+Print Assumptions C17_dangling_reference.
+Print Assumptions C17_illtyped_reference.
+Print Assumptions C17_header_gate.
+Print Assumptions C17_header_reject.
+Print Assumptions C17_load_bad_header.
+Print Assumptions C17_load_wrong_version_field.
+Print Assumptions C17_load_accept.
+Print Assumptions C17_load_reject.
+Print Assumptions C17_saved_files_accepted.
